@@ -170,11 +170,11 @@ def run_jobs(jobs, nproc=None, progress=False, deadline_s=None):
     sub-jobs (one per decision prefix) which are then run too."""
     nproc = nproc or min(16, os.cpu_count() or 4)
     results = []
-    dcap = int(os.environ.get('VK_XSOLVER_CAP', '150') or 0)
+    dcap = int(os.environ.get('VK_XSOLVER_CAP', '30') or 0)
     if dcap:
         for j in jobs:      # default: a strided sample of every job's solver queries is re-decided by cvc5
             j.setdefault('xsolver_cap', dcap)
-            j.setdefault('xsolver_stride', int(os.environ.get('VK_XSOLVER_STRIDE', '5')))
+            j.setdefault('xsolver_stride', int(os.environ.get('VK_XSOLVER_STRIDE', '11')))
     t0 = time.perf_counter()
     ctx = mp.get_context('forkserver')
     with ctx.Pool(nproc, initializer=_init_worker, maxtasksperchild=50) as pool:
